@@ -46,7 +46,8 @@
  "object_bits": 8,
  "native_replay": true,
  "timeout": 600,
- "tier": "thorough"
+ "tier": "parked",
+ "parked_reason": "SAT solver out of memory (thorough-only unit)"
 }
 @*/
 /* C13.to_bin_exact  export: pstm_to_unsigned_bin(a, b) writes the big-endian bytes of |a| into
